@@ -34,6 +34,8 @@ def replay(ctx, hit):
     from ..worker import cmps_from
     try:
         h, _ = _c11.check_case([tuple(x) for x in hit["input"]], cmps_from(hit["cmps"]), hit["job"], stages.make_registry(), True)
+    except stages.TooCostly:
+        raise
     except Exception as e:  # noqa
         h = {"kind": "pipeline-raises", "observed": f"{type(e).__name__}: {e}"}
     return h
